@@ -73,7 +73,10 @@ def signature(u: Universe, oracle: str, m: Msg, aval: Dict[str, Any]) -> List[st
         elems = v if f.card == "repeated" else (list(v.values()) if f.card == "map" else [v])
         if any(int(x) not in e.numbers for x in elems):
             vc += ":undefined"
-    sig = [oracle, f.card, f.base, kind_arg(f.kind), vc]
+    arg = kind_arg(f.kind)
+    if f.proto_name is not None:
+        arg = "name:" + f.proto_name  # named-field family: the field NAME is what is under test
+    sig = [oracle, f.card, f.base, arg, vc]
     if extra:
         sig.append(extra)
     return sig
